@@ -191,11 +191,11 @@ STRIDES = {
     "C08": {"quick": {"miri": 2}, "thorough": {"asan": 2, "vg": 3, "miri": 2}},
     "C09": {"quick": {"asan": 2}, "thorough": {"asan": 3, "vg": 3, "miri": 2}},
     "C10": {"quick": {"miri": 3, "asan": 2}, "thorough": {"asan": 3, "vg": 3, "miri": 3}},
-    "C04": {"quick": {"miri": 2}},
+    "C04": {"quick": {"miri": 4}},
     "C11": {"quick": {"miri": 2}},
     "C13": {"quick": {"asan": 3, "miri": 2}},
-    "C14": {"quick": {"asan": 2, "miri": 2}},
-    "C15": {"quick": {"miri": 2}},
+    "C14": {"quick": {"asan": 3, "miri": 4}},
+    "C15": {"quick": {"miri": 4}},
     "C16": {"quick": {"miri": 2}},
     "C17": {"quick": {"miri": 2}},
     "C19": {"quick": {"miri": 3}},
